@@ -444,9 +444,22 @@ pub fn value_sweep(tier: Tier) -> Vec<Scenario> {
     } else {
         vec![("0.25", "0.25"), ("0.001", "0.01"), ("0.999", "0.5"), ("0.1", "0.1"), ("0.333", "0.667"), ("1", "1"), ("0.0000001", "0.5"), ("0.00125", "0.00005"), ("1.25", "0.010"), ("2", "0.2500"), ("0.0100", "1.5")]
     };
+    let mut combos: Vec<(u128, &str, &str, &str, &str)> = vec![];
     for sz in &sizes {
         for (lo, hi) in &price_pairs {
             for (ra, rb) in &rates {
+                combos.push((*sz, *lo, *hi, *ra, *rb));
+            }
+        }
+    }
+    if tier == Tier::Quick {
+        // amounts whose product with a three-decimal rate no longer fits a 96-bit decimal mantissa (defect D7 showed here)
+        combos.push(((1u128 << 80) + 5, "999", "1000", "0.999", "0.5"));
+        combos.push(((1u128 << 80) + 5, "999", "1000", "0.333", "0.667"));
+    }
+    {
+        {
+            for (sz, lo, hi, ra, rb) in &combos {
                 // keep every amount inside the reference model's range
                 let hi_n: u128 = hi.parse().unwrap_or(1);
                 // (and inside the contract's own 96-bit decimal capacity: beyond it requests are refused as overflowing)
@@ -481,7 +494,7 @@ pub fn value_sweep(tier: Tier) -> Vec<Scenario> {
         if tier == Tier::Quick && k > 1 {
             break;
         }
-        for mult in if tier == Tier::Quick { vec![1u128, 7] } else { vec![1u128, 2, 3, 7, 10, 64, 1000] } {
+        for mult in if tier == Tier::Quick { vec![1u128, 7] } else { vec![1u128, 2, 3, 7, 10, 64, 1000, 10u128.pow(22) + 1] } {
             let cfg = Cfg::new(3, 1000, ("0.25", "0.001"), "R0");
             let sz = 1000 * mult;
             let menu = Menu {
@@ -489,8 +502,9 @@ pub fn value_sweep(tier: Tier) -> Vec<Scenario> {
                 bid_slots: 1,
                 prices: vec![*lo, *hi],
                 sizes: vec![sz],
-                match_sizes: vec![1000.min(sz), sz / 2, sz, 125.min(sz)],
-                reject_sizes: vec![1000],
+                // (a one-lot step on a large order would make every remainder reachable: thousands of levels per side)
+                match_sizes: if mult <= 10 { vec![1000.min(sz), sz / 2, sz, 125.min(sz)] } else { vec![sz / 2, sz, 125, (sz / 3000) * 1000, sz / 2 + 1] },
+                reject_sizes: vec![if mult <= 10 { 1000 } else { (sz / 4000) * 1000 }],
                 ask_bases: vec!["base", "conv"],
                 two_approvers: false,
                 modifies: vec![],
